@@ -247,6 +247,7 @@ def contract_driver(program, c, findings=()):
         ctx.policy = policy
         ctx.ghost["in_body"] = True
         ctx.loop_specs = c.loops
+        ctx.poll_bound = getattr(c, 'poll_bound', None)
         exc = None
         result = None
         try:
